@@ -148,7 +148,7 @@ Proof.
   destruct (cast_kind (SScalar k)).
   - destruct (parse_bool t); reflexivity.
   - destruct (orc (OInt bits) t); reflexivity.
-  - destruct (orc (OInt bits) t); reflexivity.
+  - destruct (orc (OUint bits) t); reflexivity.
   - destruct (orcq t); reflexivity.
   - reflexivity.
   - reflexivity.
